@@ -16,6 +16,7 @@ import (
 	"sort"
 	"strconv"
 	"strings"
+	"time"
 
 	"context"
 
@@ -431,6 +432,11 @@ func VerifC18Run(c VerifC18Case, dir string) (obs VerifC18Obs) {
 			}()
 			j.Run()
 		}()
+		if rec.n > len(rec.calls) {
+			// the sink failed: processDependency returned while its producer goroutine may still be inside a store
+			// query (it then parks for ever on its channel); let it get there before the store is used or closed
+			time.Sleep(40 * time.Millisecond)
+		}
 		if r.Outcome == "" {
 			res := &jobResult{}
 			_ = env.store.GetObject(server.JobResultIndex, verifC18JobID, res)
